@@ -266,6 +266,148 @@ impl Space for Structured {
 }
 
 // ----------------------------------------------------------------------
+// all clique-tree shapes: chordal patterns built clique by clique
+// ----------------------------------------------------------------------
+/// Every pattern obtained from K cliques where clique i > 0 hangs below an earlier clique p(i), shares the
+/// last s_i in {1,2} vertices of that clique and adds a_i in {1,2,3} new vertices; clique 0 has a_0 + 1
+/// vertices. (K! / K) * 3^K * 2^(K-1) shapes, up to 3K+1 vertices: the merge strategies see chains and stars
+/// of small cliques with every combination of sizes and overlaps -- the situations in which they merge
+/// repeatedly. Vertices are numbered in creation order or reversed (two labelings).
+pub struct CliqueTrees {
+    pub k: usize,
+}
+impl CliqueTrees {
+    fn shapes(&self) -> u64 {
+        let k = self.k as u64;
+        let parents: u64 = (1..k).product::<u64>().max(1);
+        parents * 3u64.pow(self.k as u32) * (1u64 << (self.k - 1))
+    }
+    fn build(&self, id: u64) -> (usize, Vec<Vec<usize>>, &'static str, bool) {
+        let mut d = Digits(id);
+        let merge = *d.pick(&MERGES);
+        let reversed = d.take(2) == 1;
+        let mut cliques: Vec<Vec<usize>> = vec![];
+        let mut n = 0usize;
+        for i in 0..self.k {
+            let a = d.take(3) as usize + 1;
+            let mut c: Vec<usize> = vec![];
+            if i == 0 {
+                c.push(n);
+                n += 1;
+            } else {
+                let p = d.take(i as u64) as usize;
+                let s = d.take(2) as usize + 1;
+                let par = &cliques[p];
+                let s = s.min(par.len());
+                c.extend(par[par.len() - s..].iter().cloned());
+            }
+            for _ in 0..a {
+                c.push(n);
+                n += 1;
+            }
+            cliques.push(c);
+        }
+        if reversed {
+            for c in cliques.iter_mut() {
+                for v in c.iter_mut() {
+                    *v = n - 1 - *v;
+                }
+            }
+        }
+        (n, cliques, merge, reversed)
+    }
+}
+impl Space for CliqueTrees {
+    fn name(&self) -> String {
+        format!("clique-tree-shapes-{}-cliques", self.k)
+    }
+    fn size(&self) -> u64 {
+        self.shapes() * 3 * 2
+    }
+    fn describe(&self, id: u64) -> Value {
+        let (n, cliques, merge, reversed) = self.build(id);
+        json!({"vertices": n, "cliques": cliques, "merge_method": merge, "labels_reversed": reversed})
+    }
+    fn bound(&self) -> Value {
+        json!({"cliques": self.k, "new_vertices_per_clique": [1,2,3], "separator_sizes": [1,2], "parents": "every earlier clique", "labelings": 2, "merge_methods": MERGES})
+    }
+    fn run(&self, id: u64, ctx: &mut Ctx) -> CaseResult {
+        let (n, cliques, merge, _) = self.build(id);
+        let mut adj = vec![false; n * n];
+        for c in &cliques {
+            for &u in c {
+                for &v in c {
+                    adj[u * n + v] = true;
+                }
+            }
+        }
+        let edge = |i: usize, j: usize| adj[i * n + j];
+        let mask = mask_from_edges(n, &edge);
+        let view = guarded(|| verif_chordal_analysis(&mask, n, merge)).map_err(|e| Violation::new(format!("analysis-panics:{}", super::sweep::panic_site(&e)), e))?;
+        ctx.transitions += 1;
+        judge_tree(n, &edge, &view, merge, ctx)
+    }
+}
+
+// ----------------------------------------------------------------------
+// "randomly for sparse graphs up to several hundred vertices": a seeded, labelled supplement
+// ----------------------------------------------------------------------
+pub struct RandomSparse {
+    pub count: u64,
+    pub seed: u64,
+    pub maxn: u64,
+}
+impl RandomSparse {
+    fn graph(&self, id: u64) -> (usize, Vec<bool>, &'static str) {
+        let mut rng = Rng(self.seed.wrapping_mul(104729).wrapping_add(id / 3).wrapping_add(17));
+        let n = 8 + rng.below(self.maxn - 7) as usize;
+        // expected degree 2..7, independent of n
+        let deg = 2 + rng.below(6);
+        let mut adj = vec![false; n * n];
+        for j in 0..n {
+            for i in 0..j {
+                if rng.below(n as u64) < deg {
+                    adj[i * n + j] = true;
+                    adj[j * n + i] = true;
+                }
+            }
+        }
+        (n, adj, MERGES[(id % 3) as usize])
+    }
+}
+impl Space for RandomSparse {
+    fn name(&self) -> String {
+        format!("random-sparse-n<={}(sampling)", self.maxn)
+    }
+    fn size(&self) -> u64 {
+        self.count * 3
+    }
+    fn is_sampling_supplement(&self) -> bool {
+        true
+    }
+    fn describe(&self, id: u64) -> Value {
+        let (n, adj, merge) = self.graph(id);
+        let mut edges = vec![];
+        for j in 0..n {
+            for i in 0..j {
+                if adj[i * n + j] {
+                    edges.push((i, j));
+                }
+            }
+        }
+        json!({"seed": self.seed, "index": id, "vertices": n, "edges": edges, "merge_method": merge})
+    }
+    fn run(&self, id: u64, ctx: &mut Ctx) -> CaseResult {
+        let (n, adj, merge) = self.graph(id);
+        let edge = |i: usize, j: usize| i == j || adj[i * n + j];
+        let mask = mask_from_edges(n, &edge);
+        let view = guarded(|| verif_chordal_analysis(&mask, n, merge)).map_err(|e| Violation::new(format!("analysis-panics:{}", super::sweep::panic_site(&e)), e))?;
+        ctx.transitions += 1;
+        judge_tree(n, &edge, &view, merge, ctx)
+    }
+}
+
+// ----------------------------------------------------------------------
 // union-find: explicit-state search with label symmetry reduction
 // ----------------------------------------------------------------------
 pub struct DsuSearch {
@@ -397,15 +539,23 @@ pub const ASSUMPTIONS: &[&str] = &[
     "union-find states are de-duplicated modulo relabelling of elements (AHU encoding with rank labels): the implementation compares only roots and ranks, never labels, so isomorphic states have isomorphic futures",
 ];
 
-pub fn spaces(tier: &str, _seed: u64) -> Vec<Box<dyn Space>> {
+pub fn spaces(tier: &str, seed: u64) -> Vec<Box<dyn Space>> {
     let thorough = tier == "thorough";
     let mut v: Vec<Box<dyn Space>> = vec![];
+    v.push(Box::new(RandomSparse { count: if thorough { 200_000 } else { 4_000 }, seed, maxn: if thorough { 300 } else { 60 } }));
     v.push(Box::new(DsuSearch { n: 6, max_states: 2_000_000 }));
     v.push(Box::new(DsuSearch { n: 8, max_states: if thorough { 5_000_000 } else { 300_000 } }));
     for n in 2..=7 {
         v.push(Box::new(AllGraphs { n }));
     }
     v.push(Box::new(Structured { sizes: if thorough { vec![8, 15, 31, 40, 63, 100, 127, 200, 255, 400] } else { vec![8, 15, 31, 40, 63, 127] } }));
+    for k in 2..=(if thorough { 6 } else { 5 }) {
+        v.push(Box::new(CliqueTrees { k }));
+    }
+    if thorough {
+        // 2^28 graphs x 3 merge strategies
+        v.push(Box::new(AllGraphs { n: 8 }));
+    }
     if thorough {
         v.push(Box::new(DsuSearch { n: 9, max_states: 5_000_000 }));
     }
